@@ -9,6 +9,8 @@ func checkC02(p *Program, tier string) *Result {
 	ruleNarrowEncoders(p, r, validators)
 	ruleLayout(p, r, "ed", true)
 	ruleEnum(p, r)
+	// the text validators' "all octets are ASCII" test looks at every octet
+	ruleASCIIPredicates(p, r)
 	r.Trusted = append(r.Trusted, "append/copy/len semantics")
 	r.Assumptions = append(r.Assumptions, "trailing bytes after the last announced field are ignored by the decoders; re-encoding drops them, which the statement allows")
 	return r
